@@ -427,6 +427,10 @@ async fn run_task(
         .await;
 
     let _workspace_guard = workspace_lock.acquire().await;
+    #[cfg(feature = "verif")]
+    let verif_ctx = format!("{} task", handle.task_id);
+    #[cfg(feature = "verif")]
+    rip_kernel::verif::point("ws.exec.begin", &verif_ctx);
     match execution_mode {
         ToolTaskExecutionMode::Pipes => {
             pipes::run_pipes_task(
@@ -459,6 +463,8 @@ async fn run_task(
             .await
         }
     }
+    #[cfg(feature = "verif")]
+    rip_kernel::verif::point("ws.exec.end", &verif_ctx);
 
     finalize_snapshot(&handle, &snapshot_dir).await;
 }
@@ -521,8 +527,16 @@ impl TaskEmitter {
         *seq += 1;
 
         let _ = self.sender.send(event.clone());
+        #[cfg(feature = "verif")]
+        rip_kernel::verif::point_with("task.emit.after_send", || {
+            format!("{} {}", event.session_id, event.seq)
+        });
         let mut guard = self.events.lock().await;
         guard.push(event.clone());
+        #[cfg(feature = "verif")]
+        rip_kernel::verif::point_with("task.emit.after_record", || {
+            format!("{} {}", event.session_id, event.seq)
+        });
         let _ = self.event_log.append(&event);
     }
 }
